@@ -2,7 +2,7 @@
     This file contains only the pinned statements; proofs live in ParseProofs/Sources.v. *)
 From ClapModel Require Import Base.Bytes Base.Machine.
 From ClapModel Require Import Parse.Cmd Parse.Build Parse.Matcher Parse.Errors Parse.Validator Parse.Parser.
-From ClapModel Require Import Sources.Present ParseProofs.Sources.
+From ClapModel Require Import Sources.Present ParseProofs.Sources Gen.ActionDefaults.
 From Coq Require Import ZArith.
 Open Scope N_scope.
 
@@ -190,3 +190,13 @@ Theorem C06_conditional_default_order_dependent :
   /\ entry_summary (get_matches_with 2 (ex_cmd [ex_b; ex_a]) [] ps_new) [98] = None.
 Proof. exact (conj ex_default_triggers_later_rule ex_default_does_not_trigger_earlier_rule). Qed.
 Print Assumptions C06_conditional_default_order_dependent.
+
+(** the constant tables of the model are the ones found in the source on this run *)
+Theorem C06_tables_match_source :
+  Gen.ActionDefaults.action_default_value_rows = map (fun a => (action_name a, action_default_value a)) all_actions
+  /\ Gen.ActionDefaults.action_default_missing_value_rows = map (fun a => (action_name a, action_default_missing_value a)) all_actions
+  /\ Gen.ActionDefaults.value_source_variants = map src_name_bytes [SDefault; SEnv; SCmdLine]
+  /\ (forall s, nth_error Gen.ActionDefaults.value_source_variants (N.to_nat (src_rank s)) = Some (src_name_bytes s))
+  /\ (forall s, src_explicit s = negb (beq (src_name_bytes s) Gen.ActionDefaults.value_source_not_explicit)).
+Proof. exact tables_match_source. Qed.
+Print Assumptions C06_tables_match_source.
